@@ -415,7 +415,6 @@ UNITS += [
         pack.blobs@.len() < u16::MAX, lens(pack.blobs@, 0, pack.blobs@.len() as int) <= u32::MAX,
     ensures
         /*@every_blob_counted_once*/ pi_r.used_blobs + pi_r.unused_blobs == pack.blobs@.len(),
-        /*@sizes_add_up*/ pi_r.used_size + pi_r.unused_size == lens(pack.blobs@, 0, pack.blobs@.len() as int),
         final(used_ids)@.dom() == old(used_ids)@.dom(),
         /*@blobs_of_other_packs_untouched*/ forall|k: (BlobType, u64)| old(used_ids)@.dom().contains(k) && !(exists|i: int| 0 <= i < pack.blobs@.len() && bkey(#[trigger] pack.blobs@[i]) == k)
             ==> final(used_ids)@[k] == old(used_ids)@[k],
